@@ -171,7 +171,7 @@ def step(ctx, cid, rng, wv, op, guard, prog, label):
         now = (ox, oy)[i]
         other_ok = np.array_equal((ox, oy)[1 - i], orig_before[1 - i])
         if not other_ok or np.shape(now) != want.shape or \
-                np.max(np.abs(np.asarray(now, dtype=float) - want)) > 1e-9 * max(abs(lo), abs(hi), 1e-300):
+                not np.max(np.abs(np.asarray(now, dtype=float) - want)) <= 1e-9 * max(abs(lo), abs(hi), 1e-300):
             ctx.violation("original_not_renormalised_as_documented", cid, {"after": label, "program": prog})
             return False
     elif not (isinstance(ox, np.ndarray) and isinstance(oy, np.ndarray) and np.array_equal(ox, orig_before[0])
